@@ -108,13 +108,21 @@ def run_helpers(unit):
                 a1 = np.array(q, dtype=np.int64)
                 before = a1.copy()
                 r = _call(ci.make_valid, a1)
-                emit('make_valid:%s:%r' % (chname, q), (r, 'arg-modified' if not np.array_equal(a1, before) else 'arg-kept'))
+                try:
+                    alias = bool(np.shares_memory(ci.make_valid(a1), a1))  # documented: returns a copy
+                except Exception:  # noqa: BLE001
+                    alias = None
+                emit('make_valid:%s:%r' % (chname, q), (r, 'arg-modified' if not np.array_equal(a1, before) else 'arg-kept', 'aliases-arg' if alias else 'copy'))
                 emit('check_valid:%s:%r' % (chname, q), _call(ci.check_valid, np.array([q], dtype=np.int64).reshape(1, qn)))
             for rows in (0, 1, 3):
                 a2 = np.array(window[:rows] if rows else [], dtype=np.int64).reshape(rows, qn)
                 before = a2.copy()
                 r = _call(ci.make_valid, a2)
-                emit('make_valid2D:%s:%d' % (chname, rows), (r, 'arg-modified' if not np.array_equal(a2, before) else 'arg-kept'))
+                try:
+                    alias = bool(rows and np.shares_memory(ci.make_valid(a2), a2))
+                except Exception:  # noqa: BLE001
+                    alias = None
+                emit('make_valid2D:%s:%d' % (chname, rows), (r, 'arg-modified' if not np.array_equal(a2, before) else 'arg-kept', 'aliases-arg' if alias else 'copy'))
                 emit('check_valid2D:%s:%d' % (chname, rows), _call(ci.check_valid, a2))
             emit('make_valid:None:%s' % chname, _call(ci.make_valid, None))
             emit('make_valid:list:%s' % chname, _call(ci.make_valid, [5] * qn))
